@@ -269,6 +269,7 @@ func (x *Exec) Branch(c *Term) bool {
 			lit = lit.Args[0]
 		}
 		if lit.Op == "sym" && lit.Sort == SBool && !x.pcMentions(lit.S) {
+			x.forkSites["sym:"+lit.S]++
 			alt := make([]int8, len(x.decisions)+1)
 			copy(alt, x.decisions)
 			alt[len(x.decisions)] = 0
@@ -295,7 +296,11 @@ func (x *Exec) Branch(c *Term) bool {
 	}
 	switch {
 	case tOK && fOK:
-		x.forkSites[x.curSite]++
+		if x.curSite == "" {
+			x.forkSites["cond:"+trunc(c.Key(), 70)]++
+		} else {
+			x.forkSites[x.curSite]++
+		}
 		alt := make([]int8, len(x.decisions)+1)
 		copy(alt, x.decisions)
 		alt[len(x.decisions)] = 0
